@@ -143,6 +143,26 @@ def roles(fn):
     return r
 
 
+def is_num_domain_free(callee, pname):
+    """True when the callee's refusals on `pname` are about the TEXT handed in (parse errors), which the PAT_PERF filter of the caller
+    already rules out - decided elsewhere (R3); only type / range tests on a plain option (isinstance, comparisons with constants) count here"""
+    for r in ast.walk(callee):
+        if isinstance(r, ast.If) and any(isinstance(y, ast.Raise) for y in ast.walk(r)):
+            names = {x.id for x in ast.walk(r.test) if isinstance(x, ast.Name)}
+            if pname in names and any(isinstance(c, ast.Compare) and any(isinstance(k, ast.Constant) and isinstance(k.value, (int, float)) for k in c.comparators)
+                                      for c in ast.walk(r.test)):
+                return False
+            if pname in names and any(isinstance(c, ast.Call) and isinstance(c.func, ast.Name) and c.func.id == 'isinstance' for c in ast.walk(r.test)):
+                return False
+    # a raise in the else branch of such a test (`if ok: ... else: raise`)
+    for r in ast.walk(callee):
+        if isinstance(r, ast.If) and r.orelse and any(isinstance(y, ast.Raise) for st in r.orelse for y in ast.walk(st)):
+            names = {x.id for x in ast.walk(r.test) if isinstance(x, ast.Name)}
+            if pname in names:
+                return False
+    return True
+
+
 def run(ctx, repo):
     P = Pats(repo)
     mod = repo.module(UTILS)
@@ -194,6 +214,63 @@ def run(ctx, repo):
                             "not a number (e.g. '4:05:33' for a sprint becomes '4.05.33') leaks a raw ValueError past a custom error class" % k,
                             "('100', '4:05:33')")
     ctx.floor('int()/float() conversions of text', n_conv, 6)
+    # calls of helpers of the module that refuse some arguments with an error of their own (an explicit raise of something else than
+    # the caller's class): the call lies in a try that raises errorKlass, or the caller validates the argument itself (an if on the
+    # argument whose body raises errorKlass) before it gets there
+    modfuncs = {q: f for q, f in mod.functions.items() if '.' not in q}
+    n_helper = 0
+    for c in ast.walk(fn):
+        if not (isinstance(c, ast.Call) and isinstance(c.func, ast.Name) and c.func.id in modfuncs and c.func.id != FN):
+            continue
+        callee = modfuncs[c.func.id]
+        raises_ = []
+        for r in ast.walk(callee):
+            if isinstance(r, ast.Raise) and r.exc is not None:
+                exn = r.exc.func if isinstance(r.exc, ast.Call) else r.exc
+                # the condition under which it raises must depend on a parameter of the callee (otherwise it is not about the argument)
+                cond_names = set()
+                p_ = getattr(r, '_parent', None)
+                while p_ is not None and p_ is not callee:
+                    if isinstance(p_, ast.If):
+                        cond_names |= {x.id for x in ast.walk(p_.test) if isinstance(x, ast.Name)}
+                    if isinstance(p_, ast.ExceptHandler):
+                        cond_names = set()      # converting an inner error: R1 / C06 speak about those
+                        break
+                    p_ = getattr(p_, '_parent', None)
+                cparams = [a.arg for a in callee.args.args]
+                hit = [x for x in cparams if x in cond_names]
+                if hit:
+                    raises_.append((r, unparse(exn), hit))
+        if not raises_:
+            continue
+        n_helper += 1
+        if in_try_raising(c, fn, ek):
+            ctx.ok('R1', '%s(...) inside try -> raise errorKlass' % c.func.id)
+            continue
+        cparams = [a.arg for a in callee.args.args]
+        unguarded = []
+        for r, exn, hit in raises_:
+            for pname in hit:
+                idx = cparams.index(pname)
+                arg = c.args[idx] if idx < len(c.args) else next((k.value for k in c.keywords if k.arg == pname), None)
+                if arg is None or isinstance(arg, ast.Constant):
+                    continue
+                names_ = {x.id for x in ast.walk(arg) if isinstance(x, ast.Name)}
+                validated = False
+                for t in ast.walk(fn):
+                    if isinstance(t, ast.If) and names_ & {x.id for x in ast.walk(t.test) if isinstance(x, ast.Name)} \
+                            and any(isinstance(y, ast.Raise) and y.exc is not None and ek in unparse(y.exc) for y in ast.walk(t)) and t.lineno <= c.lineno:
+                        validated = True
+                if not validated and not is_num_domain_free(callee, pname):
+                    unguarded.append((exn, pname, unparse(arg)))
+        if unguarded:
+            exn, pname, argtxt = unguarded[0]
+            ctx.finding('R1', '%s::%s::%s() refuses with its own error' % (UTILS, FN, c.func.id), UTILS, c.lineno,
+                        '%s(...) raises %s for some values of its parameter %s, which receives `%s` unvalidated and outside any try that raises '
+                        'errorKlass: the caller gets %s instead of the error class it supplied' % (c.func.id, exn, pname, argtxt, exn),
+                        "prec=5 with a custom errorKlass")
+        else:
+            ctx.ok('R1', '%s(...): the arguments it can refuse are validated by the caller first' % c.func.id)
     # divisions: the divisor is a non-zero constant, or a name that an enclosing test has found non-zero (ZeroDivisionError is not errorKlass)
     n_div = 0
     for d_ in ast.walk(fn):
